@@ -18,6 +18,7 @@
 //! Second surface (a quarter of the runs): the same tapes on the real `FilesystemWalStore` in the
 //! run's scratch directory, with crash images taken through the I/O-point hook (`c17/fs.rs`).
 
+mod adapter;
 mod driver;
 mod fs;
 mod store;
@@ -158,6 +159,10 @@ pub struct C17 {
     /// in torn record bytes, always run ordinary writable WAL recovery before coordinator recovery.
     #[serde(default)]
     pub avoid_torn_direct: bool,
+    /// Edict adapter surface (request admission from a compiler artifact + workspace observation
+    /// adapter): when set, the run exercises that surface instead of the op tape.
+    #[serde(default)]
+    pub adapter: Option<adapter::AdapterRun>,
 }
 
 /// Adapter/scope pairs bound in the runtime-owned registry (adapter 2 is bound nowhere).
@@ -465,10 +470,15 @@ impl Scenario for C17 {
         }
         let new_epoch_on_crash = rng.chance(1, 2);
         let surface = if rng.chance(1, 4) { Surface::Filesystem } else { Surface::Memory };
-        C17 { n_ids: n as u8, budgets, scope_of, ops, faults, new_epoch_on_crash, surface, avoid_torn_direct: false }
+        // drawn last so that the rest of the scenario is unchanged by this choice
+        let adapter = if rng.chance(1, 12) { Some(adapter::generate(rng)) } else { None };
+        C17 { n_ids: n as u8, budgets, scope_of, ops, faults, new_epoch_on_crash, surface, avoid_torn_direct: false, adapter }
     }
 
     fn execute(&self, ctx: &mut RunCtx) -> Outcome {
+        if let Some(a) = &self.adapter {
+            return adapter::run(a, ctx);
+        }
         match self.surface {
             Surface::Memory => {
                 let mut store = store::SimWalStore::new();
